@@ -184,6 +184,10 @@ func generateSpec(ctx context.Context, cfg Config, selfExe string) (*Spec, error
 
 	// Detect Toolchain Paths
 	goroot, gocache := resolveGoToolchain(ctx)
+	if goroot != "" {
+		// Destinations are ordered by a byte-wise sort, which puts parents first only for clean paths.
+		goroot = filepath.Clean(goroot)
+	}
 
 	// Dynamically build PATH to include discovered GOROOT
 	sandboxPath := "/usr/local/go/bin:/usr/local/sbin:/usr/local/bin:/usr/sbin:/usr/bin:/sbin:/bin"
